@@ -74,7 +74,10 @@ class Scheduler:
         self.starve_limit = 400
         self.stalls = []  # fault plan: [{"func": name, "nth": n, "dur": seconds}] - a thread descheduled for a while
         self.stall_seen = {}
+        self.stall_seen_armed = {}
+        self.stall_armed = False  # set by the harness when a termination trigger fires
         self.stall_total = 0.0
+        self.until_waiters = []  # [thread, function name, lines still to see]
         self.quantum_len = 150
         self.marker_hooks = []
 
@@ -207,7 +210,14 @@ class Scheduler:
         if self.sigint_pending and cur.is_main:
             self._deliver_sigint()
         if self.stalls and where[0] == "L":
-            self._maybe_stall(cur, where[1])
+            if self.until_waiters:
+                for w in self.until_waiters:
+                    if w[1] == where[1] and w[0] is not cur:
+                        w[2] -= 1
+                        if w[2] <= 0:
+                            self.wake(w[0], "until")
+                self.until_waiters = [w for w in self.until_waiters if w[2] > 0]
+            self._maybe_stall(cur, where[1], where[2])
         cands = [t for t in self.threads if t.state == RUNNABLE and t is not cur]
         if not cands:
             return
@@ -237,14 +247,26 @@ class Scheduler:
         if self.sigint_pending and cur.is_main:
             self._deliver_sigint()
 
-    def _maybe_stall(self, cur, func):
+    def _maybe_stall(self, cur, func, line=0):
         """Fault: the OS deschedules a thread for a while right here (slow / starved thread)."""
         n = self.stall_seen[func] = self.stall_seen.get(func, 0) + 1
+        m = 0
+        if self.stall_armed:
+            m = self.stall_seen_armed[func] = self.stall_seen_armed.get(func, 0) + 1
         for st in self.stalls:
-            if st["func"] == func and st["nth"] == n:
+            if st["func"] == func and ((st.get("after") and st["nth"] == m) or (not st.get("after") and st["nth"] == n)):
                 self.count_fault("stall-in:" + func)
+                self.probe("stall-at:%s:%s:%s" % (func, line, cur.name.split("#")[0]))
                 self.stall_total += st["dur"]
                 deadline = self.now + st["dur"]
+                if st.get("until"):
+                    # descheduled until another thread has executed `k` more lines of function `until`
+                    # (or until `dur` has passed): aligns this thread with the progress of another one
+                    self.count_fault("stall-until:" + st["until"])
+                    self.until_waiters.append([cur, st["until"], int(st.get("k", 1))])
+                    self.block(cur, "stall", deadline)
+                    self.until_waiters = [w for w in self.until_waiters if w[0] is not cur]
+                    return
                 while self.now < deadline:
                     self.block(cur, "stall", deadline)
 
